@@ -328,7 +328,7 @@ def run_config(cfg):
                                   ret=(r if isinstance(r, bool) or r is None else ev(r)))
             return pl
         return common.explore(cfg, harness, twin=tw, on_leaf=on_leaf, witness_fn=witness,
-                              witness_stride=cfg.get("wstride", 0), deadline_s=cfg.get("deadline_s", 1800),
+                              witness_stride=cfg.get("wstride", 0), deadline_s=cfg.get("deadline_s", 1200),
                               seed=cfg.get("seed", 0))
     harness = make_history_harness(cfg, tw)
-    return common.explore(cfg, harness, twin=tw, deadline_s=cfg.get("deadline_s", 1800), seed=cfg.get("seed", 0))
+    return common.explore(cfg, harness, twin=tw, deadline_s=cfg.get("deadline_s", 1200), seed=cfg.get("seed", 0))
